@@ -353,6 +353,14 @@ def gen_driver(m, modname, header_text, ninst=2, header_name=None, prefix_funcs=
     fimps = m.imported('func')
     inames = header_import_names(header_text, len(fimps))
     if inames is None:
+        # fewer declarations than imported functions: define the host functions under the documented names (<module>__<name>,
+        # escaped) so that what the generated code then does with them decides, not the shape of the header
+        if all(max(imp[0] + imp[1] + b'\0') < 0x80 for imp in fimps):
+            want = ['%s__%s' % (mangle(imp[0], True), mangle(imp[1])) for imp in fimps]
+            have = re.findall(r'^\s*\w+ (\w+)\(void\*[,)]', header_text, re.M)
+            if len(set(want)) == len(want) and all(n in want for n in have):
+                inames = want
+    if inames is None:
         raise InfraError('cannot find import declarations in generated header')
     out = [DRIVER_PRELUDE % {'header': header_name or (modname + '.h'), 'ninst': ninst, 'inst_t': modname + 'Instance',
                              'nimp': len(m.imports)}]
